@@ -214,7 +214,8 @@ def analyze(scen, r, props):
                 elif f"j{a}" in failed and f"j{a}" not in succeeded:
                     anc_failed.append(a)
             killed_here = -9 in codes
-            if st == "DONE" and not (0 in codes or x in pre_done or scen.get("markers_from_other_process")):
+            # (a process killed after it had written its success marker leaves the marker: "or its success marker already existed")
+            if st == "DONE" and not (0 in codes or x in pre_done or name in succeeded or scen.get("markers_from_other_process")):
                 V("C06", "done-without-success", f"{name} ({var}) is DONE but no process of it exited with 0 (exit codes {codes})")
             if st == "ERROR" and x not in pre_done:
                 if not anc_failed and not any(c != 0 for c in codes) and not scen.get("kill"):
